@@ -26,6 +26,8 @@ type EnvCfg struct {
 	CC     string `json:"cc"`
 	RcvBuf int    `json:"rcvbuf"`
 	SndBuf int    `json:"sndbuf"`
+	// Pad: 0 none; 46: injected packets are padded to the Ethernet minimum; other k>0: k trailing bytes
+	Pad int `json:"pad,omitempty"`
 }
 
 func NewEnv(c EnvCfg) *Env {
@@ -34,6 +36,11 @@ func NewEnv(c EnvCfg) *Env {
 		mtu = 1500
 	}
 	tap := netsim.NewTap(uint32(mtu))
+	if c.Pad == 46 {
+		tap.PadMin = 46
+	} else if c.Pad > 0 {
+		tap.PadIn = c.Pad
+	}
 	sack := c.SACK
 	s := netsim.NewStack(tap, netsim.StackCfg{Addrs4: []tcpip.Address{netsim.A4}, Addrs6: []tcpip.Address{netsim.A6}, SACK: &sack, CC: c.CC, RcvBuf: c.RcvBuf, SndBuf: c.SndBuf})
 	return &Env{Tap: tap, Stack: s, V6: c.V6}
